@@ -121,6 +121,25 @@ def workload_mix(ctx):
     return cached("mix", ctx.tier, ctx.seed, compute)
 
 
+def is_small(rxn, max_heavy=45):
+    """reactions whose MCS searches are far from the 1 s / 2 s wall-clock budgets (used wherever two real runs are compared,
+    so that a load-dependent timeout cannot masquerade as a difference)"""
+    from rdkit import Chem
+
+    try:
+        a, b = rxn.split(">>")
+    except ValueError:
+        return False
+    ma, mb = Chem.MolFromSmiles(a), Chem.MolFromSmiles(b)
+    return ma is not None and mb is not None and ma.GetNumHeavyAtoms() <= max_heavy and mb.GetNumHeavyAtoms() <= max_heavy
+
+
+def hit_by_real_timeout(row):
+    """the row's own search or fragment analysis ran into a wall-clock timeout (an oracle answer that depends on load)"""
+    i = row.get("issue")
+    return isinstance(i, str) and "terminated by timeout" in i
+
+
 def compare_trace(ctx, tr, layer="Pipeline"):
     """model vs implementation on every batch of a traced run; also monitors the oracle laws"""
     n = 0
